@@ -437,6 +437,22 @@ func probeDeepArrays() string {
 		}
 		return v
 	}
+	// a host time value as the clock hands it out (with its monotonic reading) comes back unchanged, whichever constructor
+	// or setter took it, and the variants built from it are equal
+	now := time.Now()
+	mk := []*variants.Variant{variants.NewVariant(now), variants.VariantFromDateTime(now), variants.VariantFromObject(now), variants.EmptyVariant(), variants.EmptyVariant()}
+	mk[3].SetAsDateTime(now)
+	mk[4].SetAsObject(now)
+	for i, v := range mk {
+		if v.Type() != variants.DateTime || v.AsDateTime() != now {
+			return fmt.Sprintf("a variant built from time.Now() (way %d of NewVariant, VariantFromDateTime, VariantFromObject, SetAsDateTime, SetAsObject) does not hand the value back unchanged", i)
+		}
+		for j, w := range mk {
+			if !v.Equals(w) {
+				return fmt.Sprintf("variants built from one time.Now() value in two ways (%d and %d) are not equal", i, j)
+			}
+		}
+	}
 	for _, d := range []int{1, 2, 10, 31, 32, 33, 63, 64, 65, 66, 100, 129, 257, 600} {
 		a, b, c, e := build(d, 7), build(d, 7), build(d, 8), build(d+1, 7)
 		switch {
